@@ -2,3 +2,10 @@ import MiniconfVerif.Props.C05
 #print axioms MiniconfVerif.C05.unzigzag_zigzag
 #print axioms MiniconfVerif.C05.bool_roundtrip
 #print axioms MiniconfVerif.C05.unit_roundtrip
+#print axioms MiniconfVerif.C05.json_roundtrip
+#print axioms MiniconfVerif.C05.json_set_of_get
+#print axioms MiniconfVerif.C05.postcard_roundtrip
+#print axioms MiniconfVerif.C05.varint_roundtrip
+#print axioms MiniconfVerif.C05.write_back_identity
+#print axioms MiniconfVerif.C05.read_back
+#print axioms MiniconfVerif.C05.small_buffer_no_partial
